@@ -3,6 +3,7 @@ import VaxisModel.Model.Sgr
 import VaxisModel.Model.SgrBytes
 import VaxisModel.Model.SgrLinks
 import VaxisModel.Model.SgrReader
+import VaxisModel.Model.SgrAgree
 
 /-! Driver for C18 (stateless; one output line per input line).
 
@@ -23,6 +24,13 @@ verdict = the property oracle on the implementation's answer:
    newStyledStringB` on the runes of the string (C02 automaton / own Cut-Split-Atoi), cluster oracle = the table.
   `decbl <style> <hex url> <hex params> <hex string> <table>\tlcells` — `NewStyledString` with the hyperlink fields on the exact string, default
    style carrying the given hyperlink: model = `VaxisModel.Model.SgrLinks.newStyledStringBL` (what `roundtrip_ss_links_full_bytes` is about).
+  `agr <body>\t<ParseStyledString's style>|<NewStyledString's style>|<emulator pen>` (round 4) — the three real consumers on `ESC [ body m a` from the
+   zero style; model = the three models; oracle: never `panic`, and when the parameter list is in `Model.Sgr.agreeClass`
+   (`Props.C18Agree.consumers_agree_on_class`; far larger than the producers' range) the three styles are equal.
+  `rdf <caps> <table> <cell>*\t<cells ParseStyledString returned>|<cells NewStyledString returned>` (round 4) — the SGR and text bytes of a REAL
+   rendered frame fed to the real string parsers; model = `parseStyledB` / `newStyledStringB` on `renderFromB` (cluster oracle = the table);
+   oracle: same graphemes, and every style shows what a terminal with these capabilities shows for the cell (`shownCaps`) —
+   `Props.C18Quirk.render_frame_read_bytes`.
 The string-level code used by `dec` (splitting on `;` / `:`, `strconv.Atoi`, decimal accumulation) is a second,
 independent transcription; the byte-level theorems (`Props/C18Bytes.lean`) are about the `SgrBytes` definitions. -/
 namespace VaxisModel.Driver.C18
@@ -339,6 +347,59 @@ def stepEncBL (which : String) (lcells : List (Cell G × String × String)) (imp
       | none => true
     s!"{m}\t{impl}\t{if impl = "panic" then "FAIL panic" else if closed then "ok" else "FAIL a hyperlink is left open at the end of the encoded string"}"
 
+/-! ### round 4: consumer agreement beyond the producers' range; rendered frames read back -/
+
+def stepAgr (body : String) (impl : String) : String :=
+  let q := bodyParams body
+  let sty (r : Except Panic Style) : String := exStr styleStr r
+  let m := s!"{sty (parseSGR {} q)}|{sty (ssSeq {} {} q)}|{sty (emuSgr {} q)}"
+  let verdict :=
+    if (impl.splitOn "|").any (· = "panic") then "FAIL panic"
+    else if !cleanBody body || !agreeClass q then "ok"
+    else
+      match impl.splitOn "|" with
+      | [a, b, c] =>
+        if a = b ∧ b = c then "ok"
+        else s!"FAIL the consumers disagree on a list of the agreement class: ParseStyledString {a}, NewStyledString {b}, emulator {c}"
+      | _ => s!"FAIL unparsable {impl}"
+  s!"{m}\t{impl}\t{verdict}"
+
+def cmpCaps (sh : Style → TStyle) : Nat → List (Cell G) → List (Cell G) → String
+  | _, [], [] => "ok"
+  | i, c :: _, [] => s!"FAIL cell {i} ({c.g}) missing"
+  | i, [], c :: _ => s!"FAIL extra cell {i} ({c.g})"
+  | i, c :: r, d :: ds =>
+    if c.g ≠ d.g then s!"FAIL cell {i}: grapheme {d.g} for {c.g}"
+    else if shown d.st ≠ sh c.st then s!"FAIL cell {i}: parsed style shows {(shown d.st).toString}, the terminal shows {(sh c.st).toString}"
+    else cmpCaps sh (i + 1) r ds
+
+def stepRdf (caps : Nat) (table : String) (cells : List (Cell G)) (impl : String) : String :=
+  match cells.mapM cellB?, (if table = "-" then some [] else commaNats? table) with
+  | some cs, some tb =>
+    let rs := VaxisModel.Model.SgrBytes.renderFromB (bit caps 0) (bit caps 1) (bit caps 2) {} cs
+    let n := rs.length
+    let cl : VaxisModel.Model.SgrBytes.Str → Nat := fun s => tb.getD (n - s.length) 1
+    let pr (r : Except Panic (List (Cell VaxisModel.Model.SgrBytes.Str))) : String := exStr (fun cs => cellsStr (cs.map cellOfB)) r
+    let m := s!"{pr (VaxisModel.Model.SgrBytes.parseStyledB cl rs)}|{pr (VaxisModel.Model.SgrBytes.newStyledStringB cl {} rs)}"
+    let verdict :=
+      if (impl.splitOn "|").any (· = "panic") then "FAIL panic"
+      else if !(cells.all fun c => wfB c.st && c.g ≠ "-") then "-"
+      else
+        match impl.splitOn "|" with
+        | [a, b] =>
+          match (if a = "-" then some [] else (fields a).mapM parseCell?), (if b = "-" then some [] else (fields b).mapM parseCell?) with
+          | some ca, some cb =>
+            let sh := shownCaps (bit caps 0) (bit caps 1)
+            let v1 := cmpCaps sh 0 cells ca
+            if v1 ≠ "ok" then s!"{v1} (ParseStyledString)"
+            else
+              let v2 := cmpCaps sh 0 cells cb
+              if v2 ≠ "ok" then s!"{v2} (NewStyledString)" else "ok"
+          | _, _ => s!"FAIL unparsable cells {impl}"
+        | _ => s!"FAIL unparsable {impl}"
+    s!"{m}\t{impl}\t{verdict}"
+  | _, _ => "bad-op\tbad-op\tbad-op"
+
 def step (line : String) : String :=
   let (op, impl) := splitTab line
   match fields op with
@@ -374,6 +435,11 @@ def step (line : String) : String :=
     match cells.mapM parseCell? with
     | some cells => stepRt false which cells impl
     | none => "bad-op\tbad-op\tbad-op"
+  | ["agr", body] => stepAgr body impl
+  | "rdf" :: caps :: table :: cells =>
+    match caps.toNat?, cells.mapM parseCell? with
+    | some caps, some cells => stepRdf caps table cells impl
+    | _, _ => "bad-op\tbad-op\tbad-op"
   | "rtq" :: which :: cells =>
     match cells.mapM parseCell? with
     | some cells => stepRt true which cells impl
